@@ -86,13 +86,13 @@ def reexpress(pr, rng):
     return p2
 
 
-def library_like(pr2, phys, du_old, rng, ln_prior):
+def library_like(pr2, phys, du_old, rng, ln_prior, force_dex=False):
     import astropy.units as u
     import thejoker as tj
     cu = dict(P=scen.U(str(rng.choice(scen.TIME_UNITS))), omega=scen.U(str(rng.choice(["rad", "deg"]))),
               M0=scen.U(str(rng.choice(["rad", "deg"]))), s=scen.U(str(rng.choice(scen.VEL_UNITS))))
     lib = tj.JokerSamples(poly_trend=pr2.p, n_offsets=pr2.q)
-    if rng.random() < 0.25:
+    if force_dex:
         # a logarithmic unit (accepted by JokerSamples: dex(d) is "equivalent" to d): values convert by 10**x, not by a factor
         cu["P"] = u.dex(u.day)
     lib["P"] = (phys["P"] * u.day).to(cu["P"])
@@ -175,7 +175,9 @@ def run_case(ctx, g):
     N = 40
     lib, phys = scen.make_library(rng, pr, N, units="canonical")
     pr2 = reexpress(pr, rng)
-    lib2, lib2_units = library_like(pr2, phys, pr.data_unit, rng, np.asarray(lib["ln_prior"]))
+    # every fourth twin library has its period column in dex(d) (a function of the case index: coverage must not be luck)
+    force_dex = g["index"] % 4 == 1
+    lib2, lib2_units = library_like(pr2, phys, pr.data_unit, rng, np.asarray(lib["ln_prior"]), force_dex=force_dex)
     n = len(pr.merged()[0])
     cfac = float(pr.data_unit.to(pr2.data_unit))          # values in twin = values in base * cfac
     nontriv = (g["index"],) if (cfac != 1.0 or pr2.desc["P"]["unit"] != "day" or pr2.desc["K"].get("P0_unit", "day") != "day") else None
@@ -192,6 +194,8 @@ def run_case(ctx, g):
     tags = dict(p=pr.p, q=pr.q, K=pr.desc["K"]["kind"], data_ratio=cfac, P_unit=pr2.desc["P"]["unit"], P0_unit=pr2.desc["K"].get("P0_unit"))
     seed = int(rng.integers(0, 2**31))
     path = str(rng.choice(["mem", "file"]))
+    if force_dex:
+        path = "file" if (g["index"] // 4) % 2 == 0 else "mem"
     ctx.count("path=" + path)
     if "dex" in lib2_units["P"]:
         ctx.count("twin library with P in a logarithmic unit, path=" + path)
